@@ -41,12 +41,13 @@ use zverif::util::catch;
 use zverif::{Fail, Tier};
 
 use zipora::memory::bump::{BumpAllocator, BumpArena, BumpScope};
+use zipora::memory::cache_layout::{CacheLayoutConfig, CacheOptimizedAllocator};
 use zipora::memory::fixed_capacity_pool::{FixedCapacityAllocation, FixedCapacityMemoryPool, FixedCapacityPoolConfig};
 use zipora::memory::five_level_pool::{
-    AdaptiveFiveLevelPool, ConcurrencyLevel, FiveLevelPoolConfig, FixedCapacityPool, LockFreePool, MemOffset, MutexBasedPool,
+    AdaptiveFiveLevelPool, ConcurrencyLevel, FiveLevelPoolConfig, FiveLevelPoolHandle, FixedCapacityPool, LockFreePool, MemOffset, MutexBasedPool,
     NoLockingPool, ThreadLocalPool,
 };
-use zipora::memory::lockfree_pool::{LockFreeMemoryPool, LockFreePoolConfig};
+use zipora::memory::lockfree_pool::{LockFreeAllocation, LockFreeMemoryPool, LockFreePoolConfig};
 use zipora::memory::mmap::{MemoryMappedAllocator, MmapAllocation};
 use zipora::memory::pool::{MemoryPool, PoolConfig, PooledBuffer};
 use zipora::memory::secure_pool::{SecureMemoryPool, SecurePoolConfig, SecurePooledPtr};
@@ -157,6 +158,22 @@ fn rec_owned(addr: usize, len: usize) -> Option<bool> {
             }
         }
         Some(false)
+    })
+}
+
+/// Address of the (only) live recorded allocation of exactly `size` bytes.
+fn rec_find_size(size: usize, not: usize) -> Option<usize> {
+    REC.with(|t| {
+        let mut found = None;
+        for i in 0..t.n {
+            if t.e[i].1 == size && t.e[i].0 != not {
+                if found.is_some() {
+                    return None;
+                }
+                found = Some(t.e[i].0);
+            }
+        }
+        found
     })
 }
 
@@ -275,6 +292,23 @@ pub trait PoolLike {
     fn total_capacity(&self) -> Option<usize> {
         None
     }
+    // ---- added by the coverage audit -----------------------------------------------------------
+    /// the pool's own "clear / clear_cache(s)" entry point, called while blocks may be live
+    fn clear(&mut self) -> Option<Result<(), String>> {
+        None
+    }
+    /// the pool's bulk allocation entry point
+    fn alloc_bulk(&mut self, _sizes: &[usize]) -> Option<Result<Vec<Issued>, String>> {
+        None
+    }
+    /// free a pointer just outside the pool's region (`hi`: one past its end, else 8 bytes in front of it)
+    fn free_edge(&mut self, _hi: bool) -> Option<Result<(), String>> {
+        None
+    }
+    /// drop the pool object itself while the RAII guards of the live blocks stay alive
+    fn drop_pool_keep_live(&mut self) -> bool {
+        false
+    }
 }
 
 #[derive(Debug)]
@@ -289,6 +323,10 @@ enum Cmd {
     Drain(usize),
     TotalCap,
     DropPool,
+    Clear,
+    AllocBulk(Vec<usize>),
+    FreeEdge(bool),
+    DropPoolKeepLive,
 }
 
 #[derive(Debug)]
@@ -299,6 +337,8 @@ enum Rep {
     Drain(Option<Vec<usize>>),
     Cap(Option<usize>),
     Done,
+    Bulk(Option<Result<Vec<Issued>, String>>),
+    Flag(bool),
 }
 
 fn exec(slot: &mut Option<Box<dyn PoolLike>>, cmd: Cmd) -> Rep {
@@ -326,6 +366,10 @@ fn exec(slot: &mut Option<Box<dyn PoolLike>>, cmd: Cmd) -> Rep {
         }
         Cmd::Drain(n) => Rep::Drain(pool.drain(n)),
         Cmd::TotalCap => Rep::Cap(pool.total_capacity()),
+        Cmd::Clear => Rep::Opt(pool.clear()),
+        Cmd::AllocBulk(sizes) => Rep::Bulk(pool.alloc_bulk(&sizes)),
+        Cmd::FreeEdge(hi) => Rep::Opt(pool.free_edge(hi)),
+        Cmd::DropPoolKeepLive => Rep::Flag(pool.drop_pool_keep_live()),
         Cmd::DropPool => unreachable!(),
     }
 }
@@ -445,6 +489,13 @@ pub enum Op {
     OpenScope,
     CloseScope,
     Reset,
+    // appended by the coverage audit
+    /// the pool's clear()/clear_cache()/clear_caches() while blocks may be live
+    Clear,
+    /// the pool's bulk entry point with k sizes (the request list, cycled)
+    AllocBulk(usize),
+    /// free of a pointer just outside the pool's region (true = one past the end)
+    FreeEdge(bool),
 }
 
 impl fmt::Debug for Op {
@@ -458,6 +509,9 @@ impl fmt::Debug for Op {
             Op::OpenScope => write!(f, "OpenScope"),
             Op::CloseScope => write!(f, "CloseScope"),
             Op::Reset => write!(f, "Reset"),
+            Op::Clear => write!(f, "Clear"),
+            Op::AllocBulk(k) => write!(f, "AllocBulk({k})"),
+            Op::FreeEdge(hi) => write!(f, "FreeEdge({})", if *hi { "hi" } else { "lo" }),
         }
     }
 }
@@ -495,6 +549,22 @@ pub struct PoolSpec {
     pub depth_q: usize,
     pub depth_t: usize,
     pub note: &'static str,
+    /// alphabet / finish extensions added by the coverage audit
+    pub x: Extra,
+}
+
+#[derive(Clone, Default)]
+pub struct Extra {
+    /// `Clear` is in the alphabet
+    pub clear: bool,
+    /// `AllocBulk(k)` for these k
+    pub bulk: Vec<usize>,
+    /// `FreeEdge(lo/hi)` (validating pointer pools)
+    pub edges: bool,
+    /// finish: drop the pool object first, re-verify the live blocks, then drop their guards
+    pub drop_pool_first: bool,
+    /// extra text for bound()
+    pub note: &'static str,
 }
 
 struct Live {
@@ -519,6 +589,10 @@ pub struct St {
     refused: u64,
     /// refused requests of >= 2^31 bytes (u32 offset arithmetic)
     refused_huge: u64,
+    /// number of `Clear` operations so far
+    cleared: u64,
+    /// the pool object was dropped in front of its guards (finish variant)
+    pool_gone: bool,
 }
 
 fn pat(seq: u64, i: usize) -> u8 {
@@ -764,7 +838,26 @@ impl SeqSpec for PoolSpec {
             self.max_live,
             self.prefill.len(),
             self.note
-        )
+        ) + &{
+            let mut t = String::new();
+            if self.x.clear {
+                t.push_str(" + Clear (the pool's own clear/clear_cache(s) entry point, also while blocks are live: they must stay valid and freeable).");
+            }
+            if !self.x.bulk.is_empty() {
+                t.push_str(&format!(" + AllocBulk(k) for k in {:?} (the pool's bulk entry point with the request list cycled; every returned block is judged like a single allocation).", self.x.bulk));
+            }
+            if self.x.edges {
+                t.push_str(" + FreeEdge(lo/hi): free of a pointer 8 bytes in front of / one past the end of the pool's region must be refused.");
+            }
+            if self.x.drop_pool_first {
+                t.push_str(" At the end the pool object is dropped BEFORE the guards of the live blocks, which must stay intact until their own drop.");
+            }
+            if !self.x.note.is_empty() {
+                t.push(' ');
+                t.push_str(self.x.note);
+            }
+            t
+        }
     }
 
     fn init(&self, _scratch: &Path) -> Result<St, Fail> {
@@ -781,6 +874,8 @@ impl SeqSpec for PoolSpec {
             total_cap: None,
             refused: 0,
             refused_huge: 0,
+            cleared: 0,
+            pool_gone: false,
         };
         if self.kind == Kind::Offsets {
             if let Rep::Cap(c) = st.host.call(Cmd::TotalCap)? {
@@ -823,10 +918,102 @@ impl SeqSpec for PoolSpec {
         if self.reset && !st.live.is_empty() {
             v.push(Op::Reset);
         }
+        if self.x.clear {
+            v.push(Op::Clear);
+        }
+        for &k in &self.x.bulk {
+            if st.live.len() + k <= self.max_live {
+                v.push(Op::AllocBulk(k));
+            }
+        }
+        if self.x.edges {
+            v.push(Op::FreeEdge(false));
+            v.push(Op::FreeEdge(true));
+        }
         v
     }
 
     fn apply(&self, st: &mut St, op: &Op) -> Result<(), Fail> {
+        let r = self.apply_inner(st, op);
+        r.map_err(|f| after_clear(st.cleared, f))
+    }
+
+    fn observe(&self, st: &mut St, h: &mut DefaultHasher) -> Result<(), Fail> {
+        // model state: request sizes of the live blocks in allocation order, their address order, #refusals
+        let mut order: Vec<usize> = (0..st.live.len()).collect();
+        order.sort_by_key(|&i| st.live[i].addr);
+        for l in &st.live {
+            l.req.hash(h);
+        }
+        order.hash(h);
+        st.refused.hash(h);
+        st.scopes.len().hash(h);
+        st.freed.len().hash(h);
+        st.cleared.hash(h);
+        self.check_live(st, "after step").map_err(|f| after_clear(st.cleared, f))
+    }
+
+    fn finish(&self, st: St) -> Result<(), Fail> {
+        let cleared = st.cleared;
+        self.finish_inner(st).map_err(|f| after_clear(cleared, f))
+    }
+}
+
+impl PoolSpec {
+    fn finish_inner(&self, mut st: St) -> Result<(), Fail> {
+        while !st.scopes.is_empty() {
+            self.apply(&mut st, &Op::CloseScope)?;
+        }
+        if self.drain && !st.freed.is_empty() {
+            // blocks freed by the history itself (not the final frees below) that are not live again
+            let mut want: Vec<usize> = st.freed.iter().map(|(a, _)| *a).filter(|a| !st.live.iter().any(|l| l.addr == *a)).collect();
+            want.sort_unstable();
+            want.dedup();
+            // what the pool has already released to the system (clear()) is not lost; decided BEFORE the drain, because the
+            // fresh chunk the drain ends with may be placed at the address of a chunk released earlier
+            want.retain(|a| rec_owned(*a, 1) == Some(true));
+            match st.host.call(Cmd::Drain(want.len() + 1)).map_err(|f| panic_as("alloc_panic", f))? {
+                Rep::Drain(Some(got)) => {
+                    let lost: Vec<usize> = want.iter().copied().filter(|a| !got.contains(a) && rec_owned(*a, 1) == Some(true)).collect();
+                    if !lost.is_empty() {
+                        return Err(fail(
+                            "lost_block",
+                            "lost",
+                            format!(
+                                "{} of the {} blocks freed by this history are neither handed out again (the pool created fresh memory after recycling {}) nor released to the system",
+                                lost.len(),
+                                want.len(),
+                                got.len()
+                            ),
+                        ));
+                    }
+                }
+                Rep::Drain(None) => {}
+                other => return Err(Fail::new("machinery", format!("unexpected reply {other:?}"))),
+            }
+        }
+        if self.x.drop_pool_first {
+            match st.host.call(Cmd::DropPoolKeepLive).map_err(|f| panic_as("drop_panic", f))? {
+                Rep::Flag(true) => st.pool_gone = true,
+                Rep::Flag(false) => return Err(Fail::new("machinery", "adapter cannot drop the pool in front of its guards")),
+                other => return Err(Fail::new("machinery", format!("unexpected reply {other:?}"))),
+            }
+            self.check_live(&st, "after the pool object was dropped")?;
+        }
+        if self.per_block_free {
+            while !st.live.is_empty() {
+                self.do_free(&mut st, 0, "final free")?;
+                self.check_live(&st, "after final free")?;
+            }
+        }
+        st.host.call(Cmd::DropPool).map_err(|f| panic_as("drop_panic", f))?;
+        drop(st);
+        Ok(())
+    }
+}
+
+impl PoolSpec {
+    fn apply_inner(&self, st: &mut St, op: &Op) -> Result<(), Fail> {
         let was_free = matches!(op, Op::Free(_));
         match op {
             Op::Alloc(r) => {
@@ -886,63 +1073,64 @@ impl SeqSpec for PoolSpec {
                 }
                 st.scopes.clear();
             }
+            Op::Clear => {
+                // Err from clear() itself is not judged; what is judged is that the live blocks survive it
+                st.cleared += 1;
+                match st.host.call(Cmd::Clear).map_err(|f| panic_as("clear_panic", f))? {
+                    Rep::Opt(_) => {}
+                    other => return Err(Fail::new("machinery", format!("unexpected reply {other:?}"))),
+                }
+            }
+            Op::AllocBulk(k) => {
+                let reqs: Vec<Req> = (0..*k).map(|i| self.reqs[i % self.reqs.len()]).collect();
+                let sizes: Vec<usize> = reqs.iter().map(|r| r.size).collect();
+                match st.host.call(Cmd::AllocBulk(sizes)).map_err(|f| panic_as("alloc_panic", f))? {
+                    Rep::Bulk(Some(Ok(blocks))) => {
+                        let n = blocks.len();
+                        let mut first: Option<Fail> = None;
+                        for (r, is) in reqs.iter().zip(blocks) {
+                            // every handle is kept (so that the drop path releases it) even after a failure
+                            if let Err(e) = self.on_issued(st, r, is) {
+                                first.get_or_insert(e);
+                            }
+                        }
+                        if let Some(e) = first {
+                            return Err(e);
+                        }
+                        if n != *k {
+                            return Err(fail("size", "bulk_count", format!("bulk allocation of {k} sizes returned Ok with {n} blocks")));
+                        }
+                    }
+                    Rep::Bulk(Some(Err(_))) => st.refused += 1,
+                    Rep::Bulk(None) => return Err(Fail::new("machinery", "AllocBulk on a pool without a bulk entry point")),
+                    other => return Err(Fail::new("machinery", format!("unexpected reply {other:?}"))),
+                }
+            }
+            Op::FreeEdge(hi) => match st.host.call(Cmd::FreeEdge(*hi)).map_err(|f| panic_as("free_panic", f))? {
+                Rep::Opt(Some(Ok(()))) => {
+                    return Err(fail(
+                        "foreign_free_accepted",
+                        if *hi { "edge_hi" } else { "edge_lo" },
+                        if *hi { "free of the address one past the end of the pool's region returned Ok" } else { "free of an address 8 bytes in front of the pool's region returned Ok" },
+                    ));
+                }
+                Rep::Opt(Some(Err(_))) => {}
+                Rep::Opt(None) => return Err(Fail::new("machinery", "FreeEdge: the pool's region was not identified")),
+                other => return Err(Fail::new("machinery", format!("unexpected reply {other:?}"))),
+            },
         }
         st.prev_was_free = was_free;
         Ok(())
     }
+}
 
-    fn observe(&self, st: &mut St, h: &mut DefaultHasher) -> Result<(), Fail> {
-        // model state: request sizes of the live blocks in allocation order, their address order, #refusals
-        let mut order: Vec<usize> = (0..st.live.len()).collect();
-        order.sort_by_key(|&i| st.live[i].addr);
-        for l in &st.live {
-            l.req.hash(h);
-        }
-        order.hash(h);
-        st.refused.hash(h);
-        st.scopes.len().hash(h);
-        st.freed.len().hash(h);
-        self.check_live(st, "after step")
-    }
-
-    fn finish(&self, mut st: St) -> Result<(), Fail> {
-        while !st.scopes.is_empty() {
-            self.apply(&mut st, &Op::CloseScope)?;
-        }
-        if self.drain && !st.freed.is_empty() {
-            // blocks freed by the history itself (not the final frees below) that are not live again
-            let mut want: Vec<usize> = st.freed.iter().map(|(a, _)| *a).filter(|a| !st.live.iter().any(|l| l.addr == *a)).collect();
-            want.sort_unstable();
-            want.dedup();
-            match st.host.call(Cmd::Drain(want.len() + 1)).map_err(|f| panic_as("alloc_panic", f))? {
-                Rep::Drain(Some(got)) => {
-                    let lost: Vec<usize> = want.iter().copied().filter(|a| !got.contains(a) && rec_owned(*a, 1) == Some(true)).collect();
-                    if !lost.is_empty() {
-                        return Err(fail(
-                            "lost_block",
-                            "lost",
-                            format!(
-                                "{} of the {} blocks freed by this history are neither handed out again (the pool created fresh memory after recycling {}) nor released to the system",
-                                lost.len(),
-                                want.len(),
-                                got.len()
-                            ),
-                        ));
-                    }
-                }
-                Rep::Drain(None) => {}
-                other => return Err(Fail::new("machinery", format!("unexpected reply {other:?}"))),
-            }
-        }
-        if self.per_block_free {
-            while !st.live.is_empty() {
-                self.do_free(&mut st, 0, "final free")?;
-                self.check_live(&st, "after final free")?;
-            }
-        }
-        st.host.call(Cmd::DropPool).map_err(|f| panic_as("drop_panic", f))?;
-        drop(st);
-        Ok(())
+/// Failures observed after a `Clear` get a class of their own, so that a recorded finding about clear() does not
+/// hide a different defect of the same clause (and the other way round).
+fn after_clear(cleared: u64, f: Fail) -> Fail {
+    if cleared > 0 && f.clause != "machinery" {
+        Fail { class: format!("{}@after_clear", f.class), ..f }
+    } else {
+        f
     }
 }
 
@@ -958,26 +1146,41 @@ fn es<E: fmt::Display>(e: E) -> String {
 
 struct SecureAd {
     live: HashMap<u64, SecurePooledPtr>,
-    pool: Arc<SecureMemoryPool>,
+    /// `None` after `drop_pool_keep_live`
+    pool: Option<Arc<SecureMemoryPool>>,
+    /// allocate through `allocate_with_hint(true)`
+    hot: bool,
     next: u64,
+}
+
+impl SecureAd {
+    fn issue(&mut self, g: SecurePooledPtr) -> Issued {
+        let is = Issued { token: self.next, addr: g.as_ptr() as usize, usable: g.size(), heap: true, origin: "" };
+        self.live.insert(self.next, g);
+        self.next += 1;
+        is
+    }
 }
 
 impl PoolLike for SecureAd {
     fn alloc(&mut self, size: usize, _a: usize) -> Result<Issued, String> {
-        if size != self.pool.config().chunk_size {
+        let pool = self.pool.as_ref().ok_or("adapter: pool already dropped")?;
+        if size != pool.config().chunk_size {
             return Err("adapter: size is not the chunk size".into());
         }
-        let g = self.pool.allocate().map_err(es)?;
-        let is = Issued { token: self.next, addr: g.as_ptr() as usize, usable: g.size(), heap: true, origin: "" };
-        self.live.insert(self.next, g);
-        self.next += 1;
-        Ok(is)
+        let g = if self.hot { pool.allocate_with_hint(true) } else { pool.allocate() }.map_err(es)?;
+        Ok(self.issue(g))
     }
     fn free(&mut self, token: u64) -> Result<(), String> {
         let g = self.live.remove(&token).ok_or("adapter: unknown token")?;
-        let b = self.pool.stats();
+        let Some(pool) = self.pool.as_ref() else {
+            // the pool is gone: the guard releases its chunk itself
+            drop(g);
+            return Ok(());
+        };
+        let b = pool.stats();
         drop(g);
-        let a = self.pool.stats();
+        let a = pool.stats();
         if a.double_free_detected != b.double_free_detected || a.corruption_detected != b.corruption_detected {
             return Err(format!(
                 "pool counted the free of a live block as an error (double_free_detected {}->{}, corruption_detected {}->{})",
@@ -987,13 +1190,14 @@ impl PoolLike for SecureAd {
         Ok(())
     }
     fn drain(&mut self, max: usize) -> Option<Vec<usize>> {
+        let pool = self.pool.as_ref()?;
         let mut got = Vec::new();
         let mut keep = Vec::new();
         for _ in 0..max {
-            let before = self.pool.stats().pool_misses;
-            match self.pool.allocate() {
+            let before = pool.stats().pool_misses;
+            match pool.allocate() {
                 Ok(g) => {
-                    let fresh = self.pool.stats().pool_misses != before;
+                    let fresh = pool.stats().pool_misses != before;
                     let a = g.as_ptr() as usize;
                     keep.push(g);
                     if fresh {
@@ -1007,6 +1211,21 @@ impl PoolLike for SecureAd {
         drop(keep);
         Some(got)
     }
+    fn clear(&mut self) -> Option<Result<(), String>> {
+        let pool = self.pool.as_ref()?;
+        Some(pool.clear().map_err(es))
+    }
+    fn alloc_bulk(&mut self, sizes: &[usize]) -> Option<Result<Vec<Issued>, String>> {
+        let pool = self.pool.as_ref()?.clone();
+        Some(match pool.allocate_bulk_with_prefetch(sizes) {
+            Ok(v) => Ok(v.into_iter().map(|g| self.issue(g)).collect()),
+            Err(e) => Err(es(e)),
+        })
+    }
+    fn drop_pool_keep_live(&mut self) -> bool {
+        self.pool = None;
+        true
+    }
 }
 
 impl Drop for SecureAd {
@@ -1016,6 +1235,10 @@ impl Drop for SecureAd {
 }
 
 fn secure(name: &str, cfg: fn() -> SecurePoolConfig, prefill_allocs: usize, prefill_frees: usize, dq: usize, dt: usize) -> Seq<PoolSpec> {
+    secure_with(name, cfg, prefill_allocs, prefill_frees, dq, dt, false)
+}
+
+fn secure_with(name: &str, cfg: fn() -> SecurePoolConfig, prefill_allocs: usize, prefill_frees: usize, dq: usize, dt: usize, hot: bool) -> Seq<PoolSpec> {
     let c = cfg();
     let mut prefill = Vec::new();
     for _ in 0..prefill_allocs {
@@ -1028,7 +1251,7 @@ fn secure(name: &str, cfg: fn() -> SecurePoolConfig, prefill_allocs: usize, pref
         name: name.to_string(),
         make: Arc::new(move || {
             let pool = SecureMemoryPool::new(cfg()).map_err(es)?;
-            Ok(Box::new(SecureAd { live: HashMap::new(), pool, next: 0 }) as Box<dyn PoolLike>)
+            Ok(Box::new(SecureAd { live: HashMap::new(), pool: Some(pool), hot, next: 0 }) as Box<dyn PoolLike>)
         }),
         threaded: false,
         skew: true,
@@ -1047,6 +1270,7 @@ fn secure(name: &str, cfg: fn() -> SecurePoolConfig, prefill_allocs: usize, pref
         max_req: None,
         depth_q: dq,
         depth_t: dt,
+        x: Extra::default(),
         note: "SecureMemoryPool hands out RAII guards, so a second free / a foreign pointer cannot be expressed through its API; chunk size is fixed by the config.",
     })
 }
@@ -1054,26 +1278,43 @@ fn secure(name: &str, cfg: fn() -> SecurePoolConfig, prefill_allocs: usize, pref
 // ---- LockFreeMemoryPool (raw pointers, validates the range) --------------------------------------
 
 struct LockFreeAd {
-    pool: LockFreeMemoryPool,
+    pool: Arc<LockFreeMemoryPool>,
+    memory_size: usize,
     live: HashMap<u64, (usize, usize)>,
     dead: HashMap<u64, (usize, usize)>,
     foreign: Box<[u64; 64]>,
     with_zero: bool,
+    /// free through the RAII wrapper `LockFreeAllocation`
+    raii: bool,
     next: u64,
+}
+
+impl LockFreeAd {
+    fn issue(&mut self, p: NonNull<u8>, size: usize) -> Issued {
+        let is = Issued { token: self.next, addr: p.as_ptr() as usize, usable: size, heap: true, origin: "" };
+        self.live.insert(self.next, (is.addr, size));
+        self.next += 1;
+        is
+    }
 }
 
 impl PoolLike for LockFreeAd {
     fn alloc(&mut self, size: usize, _a: usize) -> Result<Issued, String> {
         let p = self.pool.allocate(size).map_err(es)?;
-        let is = Issued { token: self.next, addr: p.as_ptr() as usize, usable: size, heap: true, origin: "" };
-        self.live.insert(self.next, (is.addr, size));
-        self.next += 1;
-        Ok(is)
+        Ok(self.issue(p, size))
     }
     fn free(&mut self, token: u64) -> Result<(), String> {
         let (a, s) = self.live.remove(&token).ok_or("adapter: unknown token")?;
         self.dead.insert(token, (a, s));
         let p = NonNull::new(a as *mut u8).unwrap();
+        if self.raii {
+            let mut g = LockFreeAllocation::new(p, s, self.pool.clone());
+            if g.size() != s || g.as_ptr() as usize != a || g.as_mut_slice().len() != s || g.as_slice().as_ptr() as usize != a {
+                return Err("LockFreeAllocation reports another pointer/size than it was built with".into());
+            }
+            drop(g);
+            return Ok(());
+        }
         if self.with_zero { self.pool.deallocate_with_zero(p, s) } else { self.pool.deallocate(p, s) }.map_err(es)
     }
     fn free_again(&mut self, token: u64) -> Option<Result<(), String>> {
@@ -1084,15 +1325,34 @@ impl PoolLike for LockFreeAd {
         let p = NonNull::new(self.foreign.as_mut_ptr() as *mut u8).unwrap();
         Some(self.pool.deallocate(p, 64).map_err(es))
     }
+    fn alloc_bulk(&mut self, sizes: &[usize]) -> Option<Result<Vec<Issued>, String>> {
+        Some(match self.pool.allocate_bulk_simd(sizes) {
+            Ok(v) => Ok(v.into_iter().zip(sizes).map(|(p, &s)| self.issue(p, s)).collect()),
+            Err(e) => Err(es(e)),
+        })
+    }
+    fn free_edge(&mut self, hi: bool) -> Option<Result<(), String>> {
+        // the backing region is the one system allocation of exactly memory_size bytes the pool made
+        let base = rec_find_size(self.memory_size, self.foreign.as_ptr() as usize)?;
+        let addr = if hi { base + self.memory_size } else { base - 8 };
+        Some(self.pool.deallocate(NonNull::new(addr as *mut u8)?, 64).map_err(es))
+    }
 }
 
 fn lockfree(name: &str, cfg: fn() -> LockFreePoolConfig, sizes: &[usize], validates: bool, with_zero: bool, dq: usize, dt: usize) -> Seq<PoolSpec> {
+    lockfree_with(name, cfg, sizes, validates, with_zero, dq, dt, false)
+}
+
+#[allow(clippy::too_many_arguments)]
+fn lockfree_with(name: &str, cfg: fn() -> LockFreePoolConfig, sizes: &[usize], validates: bool, with_zero: bool, dq: usize, dt: usize, raii: bool) -> Seq<PoolSpec> {
     let c = cfg();
     Seq(PoolSpec {
         name: name.to_string(),
         make: Arc::new(move || {
-            let pool = LockFreeMemoryPool::new(cfg()).map_err(es)?;
-            Ok(Box::new(LockFreeAd { pool, live: HashMap::new(), dead: HashMap::new(), foreign: Box::new([0; 64]), with_zero, next: 0 }) as Box<dyn PoolLike>)
+            let c = cfg();
+            let memory_size = c.memory_size;
+            let pool = Arc::new(LockFreeMemoryPool::new(c).map_err(es)?);
+            Ok(Box::new(LockFreeAd { pool, memory_size, live: HashMap::new(), dead: HashMap::new(), foreign: Box::new([0; 64]), with_zero, raii, next: 0 }) as Box<dyn PoolLike>)
         }),
         threaded: false,
         skew: true,
@@ -1111,6 +1371,7 @@ fn lockfree(name: &str, cfg: fn() -> LockFreePoolConfig, sizes: &[usize], valida
         max_req: None,
         depth_q: dq,
         depth_t: dt,
+        x: Extra::default(),
         note: "memory_size is reduced so that exhaustion is reached; alignment judged is ALIGN_SIZE = 8.",
     })
 }
@@ -1134,6 +1395,10 @@ impl PoolLike for TlmAd {
     fn free(&mut self, token: u64) -> Result<(), String> {
         self.live.remove(&token).ok_or("adapter: unknown token")?;
         Ok(())
+    }
+    fn clear(&mut self) -> Option<Result<(), String>> {
+        self.pool.clear_caches();
+        Some(Ok(()))
     }
 }
 
@@ -1168,6 +1433,7 @@ fn tlm(name: &str, cfg: fn() -> ThreadLocalPoolConfig, sizes: &[usize], max_live
         max_req: None,
         depth_q: dq,
         depth_t: dt,
+        x: Extra::default(),
         note: "RAII guards; the pool keeps its cache in a thread_local, so every history runs on a fresh worker thread.",
     })
 }
@@ -1225,6 +1491,7 @@ fn fixedcap(name: &str, cfg: fn() -> FixedCapacityPoolConfig, sizes: &[usize], d
         max_req: Some(c.max_block_size),
         depth_q: dq,
         depth_t: dt,
+        x: Extra::default(),
         note: "RAII guards (deallocate/verify_pointer are private, so a second free / a foreign pointer cannot be expressed); total_blocks reduced so that exhaustion is reached.",
     })
 }
@@ -1251,6 +1518,9 @@ impl PoolLike for MemPoolAd {
     fn free(&mut self, token: u64) -> Result<(), String> {
         let a = self.live.remove(&token).ok_or("adapter: unknown token")?;
         self.pool.deallocate(NonNull::new(a as *mut u8).unwrap()).map_err(es)
+    }
+    fn clear(&mut self) -> Option<Result<(), String>> {
+        Some(self.pool.clear().map_err(es))
     }
 }
 
@@ -1287,6 +1557,7 @@ fn mempool(name: &str, cfg: fn() -> PoolConfig, dq: usize, dt: usize) -> Seq<Poo
         max_req: None,
         depth_q: dq,
         depth_t: dt,
+        x: Extra::default(),
         note: "MemoryPool documents that deallocate does not validate: no FreeAgain/FreeForeign.",
     })
 }
@@ -1334,6 +1605,7 @@ fn pooled_buffer(dq: usize, dt: usize) -> Seq<PoolSpec> {
         max_req: Some(1024 * 1024),
         depth_q: dq,
         depth_t: dt,
+        x: Extra::default(),
         note: "The global pools survive between histories, so the ownership check is off; a request above the largest chunk (1 MiB) must be refused and is judged before any byte is written.",
     })
 }
@@ -1341,17 +1613,32 @@ fn pooled_buffer(dq: usize, dt: usize) -> Seq<PoolSpec> {
 // ---- TieredMemoryAllocator (thread_local medium pools: worker thread) ---------------------------
 
 struct TieredAd {
-    alloc: TieredMemoryAllocator,
+    /// `None`: the process-global allocator behind tiered_allocate / tiered_deallocate
+    alloc: Option<TieredMemoryAllocator>,
     live: HashMap<u64, TieredAllocation>,
     next: u64,
 }
 
+impl TieredAd {
+    fn dealloc(&self, a: TieredAllocation) -> zipora::Result<()> {
+        match &self.alloc {
+            Some(t) => t.deallocate(a),
+            None => zipora::memory::tiered_deallocate(a),
+        }
+    }
+}
+
 impl PoolLike for TieredAd {
     fn alloc(&mut self, size: usize, _a: usize) -> Result<Issued, String> {
-        let a = self.alloc.allocate(size).map_err(es)?;
+        let a = match &self.alloc {
+            Some(t) => t.allocate(size),
+            None => zipora::memory::tiered_allocate(size),
+        }
+        .map_err(es)?;
+        let own = self.alloc.is_some();
         let (heap, origin) = match &a {
-            TieredAllocation::Small(..) => (true, "small"),
-            TieredAllocation::Medium(..) => (true, "medium"),
+            TieredAllocation::Small(..) => (own, "small"),
+            TieredAllocation::Medium(..) => (own, "medium"),
             TieredAllocation::Large(..) => (false, "large"),
             #[allow(unreachable_patterns)]
             _ => (false, "huge"),
@@ -1363,23 +1650,32 @@ impl PoolLike for TieredAd {
     }
     fn free(&mut self, token: u64) -> Result<(), String> {
         let a = self.live.remove(&token).ok_or("adapter: unknown token")?;
-        self.alloc.deallocate(a).map_err(es)
+        self.dealloc(a).map_err(es)
     }
 }
 
 impl Drop for TieredAd {
     fn drop(&mut self) {
-        for (_, a) in self.live.drain() {
-            let _ = self.alloc.deallocate(a);
+        let all: Vec<TieredAllocation> = self.live.drain().map(|(_, a)| a).collect();
+        for a in all {
+            let _ = self.dealloc(a);
         }
     }
 }
 
 fn tiered(name: &str, cfg: fn() -> TieredConfig, sizes: &[usize], dq: usize, dt: usize) -> Seq<PoolSpec> {
+    tiered_with(name, Some(cfg), sizes, dq, dt)
+}
+
+/// `cfg = None`: the process-global allocator (tiered_allocate / tiered_deallocate)
+fn tiered_with(name: &str, cfg: Option<fn() -> TieredConfig>, sizes: &[usize], dq: usize, dt: usize) -> Seq<PoolSpec> {
     Seq(PoolSpec {
         name: name.to_string(),
         make: Arc::new(move || {
-            let alloc = TieredMemoryAllocator::new(cfg()).map_err(es)?;
+            let alloc = match cfg {
+                Some(c) => Some(TieredMemoryAllocator::new(c()).map_err(es)?),
+                None => None,
+            };
             Ok(Box::new(TieredAd { alloc, live: HashMap::new(), next: 0 }) as Box<dyn PoolLike>)
         }),
         threaded: true,
@@ -1399,21 +1695,49 @@ fn tiered(name: &str, cfg: fn() -> TieredConfig, sizes: &[usize], dq: usize, dt:
         max_req: None,
         depth_q: dq,
         depth_t: dt,
+        x: Extra::default(),
         note: "hugepages are disabled in the configs (none configured on this machine); medium pools are thread_local, so every history runs on a fresh worker thread.",
     })
 }
 
 // ---- BumpAllocator / BumpArena + BumpScope --------------------------------------------------------
 
+/// The typed entry points `alloc::<T>()` / `alloc_slice::<T>(n)`, selected by the (size, align) pair of the request.
+/// Returns (address, bytes the typed pointer spans).
+#[repr(align(64))]
+#[allow(dead_code)]
+struct Over64([u8; 64]);
+
+macro_rules! typed_alloc {
+    ($target:expr, $size:expr, $align:expr) => {{
+        let t = $target;
+        let one = |r: zipora::Result<(usize, usize)>| r.map_err(es);
+        match ($size, $align) {
+            (8, 8) => one(t.alloc::<u64>().map(|p| (p.as_ptr() as usize, std::mem::size_of::<u64>()))),
+            (64, 64) => one(t.alloc::<Over64>().map(|p| (p.as_ptr() as usize, std::mem::size_of::<Over64>()))),
+            (3, 1) => one(t.alloc_slice::<u8>(3).map(|p| (p.as_ptr() as *mut u8 as usize, p.len()))),
+            (6, 2) => one(t.alloc_slice::<u16>(3).map(|p| (p.as_ptr() as *mut u8 as usize, p.len() * 2))),
+            (20, 4) => one(t.alloc_slice::<u32>(5).map(|p| (p.as_ptr() as *mut u8 as usize, p.len() * 4))),
+            (48, 16) => one(t.alloc_slice::<u128>(3).map(|p| (p.as_ptr() as *mut u8 as usize, p.len() * 16))),
+            (s, a) => Err(format!("adapter: no typed request for {s}@{a}")),
+        }
+    }};
+}
+
 struct BumpAd {
     a: BumpAllocator,
+    typed: bool,
     next: u64,
 }
 
 impl PoolLike for BumpAd {
     fn alloc(&mut self, size: usize, align: usize) -> Result<Issued, String> {
-        let p = self.a.alloc_bytes(size, align).map_err(es)?;
         self.next += 1;
+        if self.typed {
+            let (addr, usable) = typed_alloc!(&self.a, size, align)?;
+            return Ok(Issued { token: self.next, addr, usable, heap: true, origin: "" });
+        }
+        let p = self.a.alloc_bytes(size, align).map_err(es)?;
         Ok(Issued { token: self.next, addr: p.as_ptr() as usize, usable: size, heap: true, origin: "" })
     }
     fn free(&mut self, _t: u64) -> Result<(), String> {
@@ -1427,17 +1751,25 @@ impl PoolLike for BumpAd {
 struct ArenaAd {
     scopes: Vec<BumpScope<'static>>,
     arena: Box<BumpArena>,
+    typed: bool,
     next: u64,
 }
 
 impl PoolLike for ArenaAd {
     fn alloc(&mut self, size: usize, align: usize) -> Result<Issued, String> {
+        self.next += 1;
+        if self.typed {
+            let (addr, usable) = match self.scopes.last() {
+                Some(sc) => typed_alloc!(sc, size, align)?,
+                None => typed_alloc!(&*self.arena, size, align)?,
+            };
+            return Ok(Issued { token: self.next, addr, usable, heap: true, origin: "" });
+        }
         let p = match self.scopes.last() {
             Some(s) => s.alloc_bytes(size, align),
             None => self.arena.alloc_bytes(size, align),
         }
         .map_err(es)?;
-        self.next += 1;
         Ok(Issued { token: self.next, addr: p.as_ptr() as usize, usable: size, heap: true, origin: "" })
     }
     fn free(&mut self, _t: u64) -> Result<(), String> {
@@ -1460,26 +1792,38 @@ impl Drop for ArenaAd {
     }
 }
 
+fn bump_typed_reqs() -> Vec<Req> {
+    vec![Req { size: 3, align: 1 }, Req { size: 6, align: 2 }, Req { size: 8, align: 8 }, Req { size: 20, align: 4 }, Req { size: 48, align: 16 }, Req { size: 64, align: 64 }]
+}
+
+fn bump_tiny_reqs() -> Vec<Req> {
+    vec![Req { size: 1, align: 1 }, Req { size: 7, align: 8 }, Req { size: 16, align: 16 }, Req { size: 24, align: 8 }, Req { size: 33, align: 1 }]
+}
+
 fn bump_reqs() -> Vec<Req> {
     vec![Req { size: 1, align: 1 }, Req { size: 7, align: 8 }, Req { size: 64, align: 64 }, Req { size: 100, align: 4096 }, Req { size: 4000, align: 8 }]
 }
 
 fn bump(name: &str, capacity: usize, arena: bool, dq: usize, dt: usize) -> Seq<PoolSpec> {
+    bump_with(name, capacity, arena, dq, dt, bump_reqs(), false)
+}
+
+fn bump_with(name: &str, capacity: usize, arena: bool, dq: usize, dt: usize, reqs: Vec<Req>, typed: bool) -> Seq<PoolSpec> {
     Seq(PoolSpec {
         name: name.to_string(),
         make: Arc::new(move || {
             if arena {
                 let arena = Box::new(BumpArena::new(capacity).map_err(es)?);
-                Ok(Box::new(ArenaAd { scopes: Vec::new(), arena, next: 0 }) as Box<dyn PoolLike>)
+                Ok(Box::new(ArenaAd { scopes: Vec::new(), arena, typed, next: 0 }) as Box<dyn PoolLike>)
             } else {
-                Ok(Box::new(BumpAd { a: BumpAllocator::new(capacity).map_err(es)?, next: 0 }) as Box<dyn PoolLike>)
+                Ok(Box::new(BumpAd { a: BumpAllocator::new(capacity).map_err(es)?, typed, next: 0 }) as Box<dyn PoolLike>)
             }
         }),
         threaded: false,
         skew: true,
         kind: Kind::Memory,
         align: 1,
-        reqs: bump_reqs(),
+        reqs,
         prefill: vec![],
         max_live: 6,
         per_block_free: false,
@@ -1492,6 +1836,7 @@ fn bump(name: &str, capacity: usize, arena: bool, dq: usize, dt: usize) -> Seq<P
         max_req: None,
         depth_q: dq,
         depth_t: dt,
+        x: Extra::default(),
         note: "alloc_bytes(size, align) with (size@align) pairs; CloseScope frees every block allocated since the scope was opened (documented: the scope resets to the position of its creation), scopes are closed innermost first.",
     })
 }
@@ -1535,6 +1880,30 @@ five_impl!(LockFreePool);
 five_impl!(ThreadLocalPool);
 five_impl!(FixedCapacityPool);
 five_impl!(AdaptiveFiveLevelPool);
+
+/// An adaptive pool used through both of its entry points in turn: the pool itself and a `FiveLevelPoolHandle` to it.
+struct WithHandle {
+    pool: AdaptiveFiveLevelPool,
+    handle: FiveLevelPoolHandle,
+    calls: u64,
+}
+
+impl Five for WithHandle {
+    fn alloc5(&mut self, size: usize) -> zipora::Result<MemOffset> {
+        self.calls += 1;
+        if self.calls % 2 == 1 { self.handle.alloc(size) } else { self.pool.alloc(size) }
+    }
+    fn free5(&mut self, o: MemOffset, size: usize) -> zipora::Result<()> {
+        self.calls += 1;
+        if self.calls % 2 == 1 { self.handle.free(o, size) } else { self.pool.free(o, size) }
+    }
+    fn cap5(&self) -> usize {
+        self.handle.stats().total_capacity
+    }
+    fn used5(&self) -> usize {
+        self.handle.stats().used_memory
+    }
+}
 
 struct FiveAd {
     p: Box<dyn Five>,
@@ -1582,11 +1951,21 @@ enum FiveKind {
     ThreadLocal,
     Fixed,
     Adaptive(Option<ConcurrencyLevel>),
+    /// `AdaptiveFiveLevelPool::new` with `fixed_capacity: None`: the level is chosen from the CPU count
+    Auto,
+    /// `with_level(l)` used through the pool and through `get_handle()` in turn
+    Handle(ConcurrencyLevel),
+}
+
+/// The level `AdaptiveFiveLevelPool::new` selects for this configuration on this machine.
+fn auto_level(cfg: fn() -> FiveLevelPoolConfig) -> Option<ConcurrencyLevel> {
+    AdaptiveFiveLevelPool::new(cfg()).ok().map(|p| p.current_level())
 }
 
 fn five(name: &str, which: FiveKind, cfg: fn() -> FiveLevelPoolConfig, sizes: &[usize], dq: usize, dt: usize) -> Seq<PoolSpec> {
     let c = cfg();
-    let tl = matches!(which, FiveKind::ThreadLocal | FiveKind::Adaptive(Some(ConcurrencyLevel::ThreadLocal)));
+    let tl = matches!(which, FiveKind::ThreadLocal | FiveKind::Adaptive(Some(ConcurrencyLevel::ThreadLocal)) | FiveKind::Handle(ConcurrencyLevel::ThreadLocal))
+        || (matches!(which, FiveKind::Auto) && auto_level(cfg) == Some(ConcurrencyLevel::ThreadLocal));
     let fixed = matches!(which, FiveKind::Fixed | FiveKind::Adaptive(Some(ConcurrencyLevel::FixedCapacity)) | FiveKind::Adaptive(None));
     let cap = if fixed { c.fixed_capacity.unwrap_or(c.initial_capacity) } else { c.initial_capacity };
     Seq(PoolSpec {
@@ -1599,7 +1978,12 @@ fn five(name: &str, which: FiveKind, cfg: fn() -> FiveLevelPoolConfig, sizes: &[
                 FiveKind::ThreadLocal => Box::new(ThreadLocalPool::new(cfg()).map_err(es)?),
                 FiveKind::Fixed => Box::new(FixedCapacityPool::new(cfg()).map_err(es)?),
                 FiveKind::Adaptive(Some(l)) => Box::new(AdaptiveFiveLevelPool::with_level(cfg(), l).map_err(es)?),
-                FiveKind::Adaptive(None) => Box::new(AdaptiveFiveLevelPool::new(cfg()).map_err(es)?),
+                FiveKind::Adaptive(None) | FiveKind::Auto => Box::new(AdaptiveFiveLevelPool::new(cfg()).map_err(es)?),
+                FiveKind::Handle(l) => {
+                    let pool = AdaptiveFiveLevelPool::with_level(cfg(), l).map_err(es)?;
+                    let handle = pool.get_handle().map_err(es)?;
+                    Box::new(WithHandle { pool, handle, calls: 0 })
+                }
             };
             Ok(Box::new(FiveAd { p, live: HashMap::new(), tag_origin: tl, region: !tl, next: 0 }) as Box<dyn PoolLike>)
         }),
@@ -1620,6 +2004,7 @@ fn five(name: &str, which: FiveKind, cfg: fn() -> FiveLevelPoolConfig, sizes: &[
         max_req: None,
         depth_q: dq,
         depth_t: dt,
+        x: Extra::default(),
         note: "the five-level pools return opaque offsets and expose no memory: judged on offsets (disjoint, aligned, below stats().total_capacity); capacities reduced so that exhaustion is reached.",
     })
 }
@@ -1643,6 +2028,9 @@ impl PoolLike for MmapAd {
     fn free(&mut self, token: u64) -> Result<(), String> {
         let m = self.live.remove(&token).ok_or("adapter: unknown token")?;
         self.a.deallocate(m).map_err(es)
+    }
+    fn clear(&mut self) -> Option<Result<(), String>> {
+        Some(self.a.clear_cache().map_err(es))
     }
 }
 
@@ -1676,6 +2064,7 @@ fn mmap_alloc(name: &str, min: usize, sizes: &[usize], prefill_allocs: usize, dq
         max_req: None,
         depth_q: dq,
         depth_t: dt,
+        x: Extra::default(),
         note: "regions come from mmap (page aligned); the region cache holds 4 regions per size, the prefix makes the 5th free reachable.",
     })
 }
@@ -1684,7 +2073,20 @@ fn mmap_alloc(name: &str, min: usize, sizes: &[usize], prefill_allocs: usize, dq
 
 struct NumaAd {
     live: HashMap<u64, (usize, usize, usize)>,
+    /// `init_numa_pools()` was called: numa_dealloc takes its per-node pool branch
+    pooled: bool,
     next: u64,
+}
+
+impl NumaAd {
+    fn new(pooled: bool) -> Self {
+        // the per-node pools are process-global: put them into the state this subject is about
+        let _ = zipora::memory::clear_numa_pools();
+        if pooled {
+            let _ = zipora::memory::init_numa_pools();
+        }
+        NumaAd { live: HashMap::new(), pooled, next: 0 }
+    }
 }
 
 impl PoolLike for NumaAd {
@@ -1699,6 +2101,14 @@ impl PoolLike for NumaAd {
         let (a, s, al) = self.live.remove(&token).ok_or("adapter: unknown token")?;
         zipora::memory::numa_dealloc(NonNull::new(a as *mut u8).unwrap(), s, al, 0).map_err(es)
     }
+    fn clear(&mut self) -> Option<Result<(), String>> {
+        // drops the per-node pools (and what they cached); with `pooled` they are set up again
+        let r = zipora::memory::clear_numa_pools().map_err(es);
+        if self.pooled {
+            let _ = zipora::memory::init_numa_pools();
+        }
+        Some(r)
+    }
 }
 
 impl Drop for NumaAd {
@@ -1706,13 +2116,20 @@ impl Drop for NumaAd {
         for (_, (a, s, al)) in self.live.drain() {
             let _ = zipora::memory::numa_dealloc(NonNull::new(a as *mut u8).unwrap(), s, al, 0);
         }
+        if self.pooled {
+            let _ = zipora::memory::clear_numa_pools();
+        }
     }
 }
 
 fn numa(dq: usize, dt: usize) -> Seq<PoolSpec> {
+    numa_with("numa_alloc_aligned/numa_dealloc", false, dq, dt)
+}
+
+fn numa_with(name: &str, pooled: bool, dq: usize, dt: usize) -> Seq<PoolSpec> {
     Seq(PoolSpec {
-        name: "numa_alloc_aligned/numa_dealloc".to_string(),
-        make: Arc::new(|| Ok(Box::new(NumaAd { live: HashMap::new(), next: 0 }) as Box<dyn PoolLike>)),
+        name: name.to_string(),
+        make: Arc::new(move || Ok(Box::new(NumaAd::new(pooled)) as Box<dyn PoolLike>)),
         threaded: false,
         skew: true,
         kind: Kind::Memory,
@@ -1730,7 +2147,113 @@ fn numa(dq: usize, dt: usize) -> Seq<PoolSpec> {
         max_req: None,
         depth_q: dq,
         depth_t: dt,
+        x: Extra::default(),
         note: "the exposed allocation functions behind CacheAlignedVec; alignment judged is max(align, CACHE_LINE_SIZE) as documented.",
+    })
+}
+
+// ---- CacheOptimizedAllocator::allocate_aligned / deallocate_aligned -----------------------------------
+
+struct CacheOptAd {
+    a: CacheOptimizedAllocator,
+    hot: bool,
+    live: HashMap<u64, (usize, usize, usize)>,
+    next: u64,
+}
+
+impl PoolLike for CacheOptAd {
+    fn alloc(&mut self, size: usize, align: usize) -> Result<Issued, String> {
+        self.hot = !self.hot;
+        let p = self.a.allocate_aligned(size, align, self.hot).map_err(es)?;
+        let is = Issued { token: self.next, addr: p.as_ptr() as usize, usable: size, heap: true, origin: "" };
+        self.live.insert(self.next, (is.addr, size, align));
+        self.next += 1;
+        Ok(is)
+    }
+    fn free(&mut self, token: u64) -> Result<(), String> {
+        let (a, s, al) = self.live.remove(&token).ok_or("adapter: unknown token")?;
+        self.a.deallocate_aligned(NonNull::new(a as *mut u8).unwrap(), s, al).map_err(es)
+    }
+}
+
+impl Drop for CacheOptAd {
+    fn drop(&mut self) {
+        for (_, (a, s, al)) in self.live.drain() {
+            let _ = self.a.deallocate_aligned(NonNull::new(a as *mut u8).unwrap(), s, al);
+        }
+    }
+}
+
+fn cache_opt(name: &str, cfg: fn() -> CacheLayoutConfig, dq: usize, dt: usize) -> Seq<PoolSpec> {
+    Seq(PoolSpec {
+        name: name.to_string(),
+        make: Arc::new(move || Ok(Box::new(CacheOptAd { a: CacheOptimizedAllocator::new(cfg()), hot: false, live: HashMap::new(), next: 0 }) as Box<dyn PoolLike>)),
+        threaded: false,
+        skew: true,
+        kind: Kind::Memory,
+        align: 64,
+        reqs: vec![Req { size: 1, align: 1 }, Req { size: 64, align: 64 }, Req { size: 65, align: 8 }, Req { size: 100, align: 128 }, Req { size: 5000, align: 4096 }],
+        prefill: vec![],
+        max_live: 4,
+        per_block_free: true,
+        validates: false,
+        scopes: false,
+        reset: false,
+        drain: false,
+        cap_bytes: None,
+        cap_blocks: None,
+        max_req: None,
+        depth_q: dq,
+        depth_t: dt,
+        x: Extra::default(),
+        note: "allocate_aligned(size, align, hot/cold alternating) / deallocate_aligned; alignment judged is the requested one (the allocator documents max(align, cache line)).",
+    })
+}
+
+// ---- the global SecureMemoryPools behind get_global_pool_for_size --------------------------------------
+
+struct GlobalSecureAd {
+    live: HashMap<u64, SecurePooledPtr>,
+    next: u64,
+}
+
+impl PoolLike for GlobalSecureAd {
+    fn alloc(&mut self, size: usize, _a: usize) -> Result<Issued, String> {
+        let g = zipora::memory::secure_pool::get_global_pool_for_size(size).allocate().map_err(es)?;
+        let is = Issued { token: self.next, addr: g.as_ptr() as usize, usable: g.size(), heap: false, origin: "" };
+        self.live.insert(self.next, g);
+        self.next += 1;
+        Ok(is)
+    }
+    fn free(&mut self, token: u64) -> Result<(), String> {
+        self.live.remove(&token).ok_or("adapter: unknown token")?;
+        Ok(())
+    }
+}
+
+fn global_secure(dq: usize, dt: usize) -> Seq<PoolSpec> {
+    Seq(PoolSpec {
+        name: "SecureMemoryPool[get_global_pool_for_size]".to_string(),
+        make: Arc::new(|| Ok(Box::new(GlobalSecureAd { live: HashMap::new(), next: 0 }) as Box<dyn PoolLike>)),
+        threaded: false,
+        skew: false,
+        kind: Kind::Memory,
+        align: 8,
+        reqs: [1usize, 1024, 1025, 65536, 65537, 1024 * 1024].iter().map(|&s| Req { size: s, align: 0 }).collect(),
+        prefill: vec![],
+        max_live: 3,
+        per_block_free: true,
+        validates: false,
+        scopes: false,
+        reset: false,
+        drain: false,
+        cap_bytes: None,
+        cap_blocks: None,
+        max_req: None,
+        depth_q: dq,
+        depth_t: dt,
+        x: Extra::default(),
+        note: "get_global_pool_for_size(size).allocate(): the chunk of the pool chosen for `size` must hold `size` bytes (sizes up to the largest chunk, 1 MiB); the global pools and their thread caches survive between histories, so the ownership check is off.",
     })
 }
 
@@ -1850,6 +2373,35 @@ fn five_fixed_none() -> FiveLevelPoolConfig {
     FiveLevelPoolConfig { max_fast_block_size: 64, initial_capacity: 128, arena_size: 64, fixed_capacity: None, ..FiveLevelPoolConfig::default() }
 }
 
+// ---- configurations added by the coverage audit -----------------------------------------------------
+fn sec_small_c1_pd1() -> SecurePoolConfig {
+    SecurePoolConfig::small_secure().with_local_cache_size(1).with_prefetch_distance(1)
+}
+fn sec_tiny48_zero() -> SecurePoolConfig {
+    // chunk below simd_threshold (64): the plain write_bytes branch of zero_chunk_simd
+    SecurePoolConfig::new(48, 4, 8).with_local_cache_size(1).with_zero_on_alloc(true)
+}
+fn sec_odd104_zero() -> SecurePoolConfig {
+    // chunk that is no multiple of a vector width (64 + 32 + 8): the tail of the SIMD fill sits directly in front of the
+    // footer canary.  (A chunk size that is no multiple of 8 cannot be run in-process: see notes, "needs child isolation".)
+    SecurePoolConfig::new(104, 4, 16).with_local_cache_size(1).with_zero_on_alloc(true)
+}
+fn lf_compact_2k() -> LockFreePoolConfig {
+    LockFreePoolConfig { memory_size: 2048, ..LockFreePoolConfig::compact() }
+}
+fn lf_default_4k() -> LockFreePoolConfig {
+    LockFreePoolConfig { memory_size: 4096, ..LockFreePoolConfig::default() }
+}
+fn fc_odd100() -> FixedCapacityPoolConfig {
+    FixedCapacityPoolConfig { total_blocks: 3, max_block_size: 100, ..FixedCapacityPoolConfig::default() }
+}
+fn tiered_default() -> TieredConfig {
+    TieredConfig::default()
+}
+fn five_align4() -> FiveLevelPoolConfig {
+    FiveLevelPoolConfig { max_fast_block_size: 16, alignment: 4, initial_capacity: 64, arena_size: 32, ..FiveLevelPoolConfig::default() }
+}
+
 fn main() {
     zverif::main_with("C07", |reg, _tier| {
         // ---- SecureMemoryPool: the pure presets first (configured alignment), then deep variants with alignment 8
@@ -1927,5 +2479,83 @@ fn main() {
         reg.add(mmap_alloc("MemoryMappedAllocator[min=16KiB]", 16 * 1024, &[16383, 16384, 16385, 20480], 0, 4, 5));
         reg.add(mmap_alloc("MemoryMappedAllocator[min=16KiB]/prefill5", 16 * 1024, &[16383, 16384, 20481], 5, 4, 6));
         reg.add(numa(4, 5));
+
+        // =========================================================================================
+        // Coverage audit: entry points, presets and thresholds the subjects above do not reach
+        // =========================================================================================
+        // SecureMemoryPool: clear() with live guards, bulk entry point, hot hint, pool dropped in front of its guards,
+        // chunk sizes below / off the SIMD widths with zero_on_alloc, the global pools
+        let mut s = secure("SecureMemoryPool[small_secure,cache=1]/clear", sec_small_c1, 0, 0, 5, 6);
+        s.0.x.clear = true;
+        reg.add(s);
+        let mut s = secure("SecureMemoryPool[small_secure,cache=1,prefetch=1]/bulk", sec_small_c1_pd1, 0, 0, 4, 5);
+        s.0.x.bulk = vec![3];
+        s.0.max_live = 5;
+        reg.add(s);
+        let mut s = secure("SecureMemoryPool[small_secure,cache=1]/pool-dropped-first", sec_small_c1, 0, 0, 5, 6);
+        s.0.x.drop_pool_first = true;
+        reg.add(s);
+        reg.add(secure_with("SecureMemoryPool[small_secure,cache=2]/allocate_with_hint(hot)", sec_small_c2, 0, 0, 5, 7, true));
+        reg.add(secure("SecureMemoryPool[new(48,4,8),cache=1,zero_on_alloc]", sec_tiny48_zero, 0, 0, 5, 7));
+        reg.add(secure("SecureMemoryPool[new(104,4,16),cache=1,zero_on_alloc]", sec_odd104_zero, 0, 0, 5, 7));
+        reg.add(global_secure(3, 4));
+
+        // LockFreeMemoryPool: the bin table changes its step at 128/256/512..: 256 is a bin, 257..288 share the next one;
+        // bulk entry point (10 sizes reach its look-ahead branch); RAII wrapper; pointers just outside the region
+        reg.add(lockfree("LockFreeMemoryPool[compact,2KiB]/bins-256-288", lf_compact_2k, &[248, 256, 257, 288, 289], false, false, 4, 4));
+        let mut s = lockfree("LockFreeMemoryPool[default,4KiB]/allocate_bulk_simd", lf_default_4k, &[8, 24, 100, 129], false, false, 3, 3);
+        s.0.x.bulk = vec![2, 10];
+        s.0.max_live = 12;
+        reg.add(s);
+        reg.add(lockfree_with("LockFreeMemoryPool[compact,512B]/LockFreeAllocation", lf_compact_512, &lf, false, false, 4, 5, true));
+        let mut s = lockfree("LockFreeMemoryPool[compact,512B]/edges", lf_compact_512, &[128, 152], false, false, 4, 5);
+        s.0.x.edges = true;
+        reg.add(s);
+
+        // memory::ThreadLocalMemoryPool: requests above arena_size/4 with use_secure_memory (chunk of the secure pool,
+        // 64 KiB) — no subject above reaches this branch; clear_caches() with live blocks
+        reg.add(tlm("ThreadLocalMemoryPool[compact,arena=256]/global-fallback", tlm_compact_tiny, &[64, 65, 4096, 65536, 65537], 4, 4, 4));
+        let mut s = tlm("ThreadLocalMemoryPool[compact,arena=256]/clear_caches", tlm_compact_tiny, &[16, 64], 3, 4, 5);
+        s.0.x.clear = true;
+        reg.add(s);
+
+        // FixedCapacityMemoryPool: block stride (max_block_size) that is no multiple of the alignment
+        reg.add(fixedcap("FixedCapacityMemoryPool[max_block=100,3 blocks]", fc_odd100, &[1, 96, 97, 100, 101], 4, 5));
+
+        // MemoryPool / MemoryMappedAllocator: clear() / clear_cache() in the middle of a history
+        let mut s = mempool("MemoryPool[small,max_chunks=2]/clear", mp_small2, 5, 6);
+        s.0.x.clear = true;
+        reg.add(s);
+        let mut s = mmap_alloc("MemoryMappedAllocator[min=16KiB]/clear_cache", 16 * 1024, &[16384, 16385, 20480], 0, 4, 5);
+        s.0.x.clear = true;
+        reg.add(s);
+
+        // TieredMemoryAllocator: the inner medium classes, the real default preset (hugepages on), the global functions
+        reg.add(tiered("TieredMemoryAllocator[default,no hugepages]/medium-classes", tiered_nohuge, &[2049, 4096, 4097, 8192, 8193], 3, 4));
+        reg.add(tiered("TieredMemoryAllocator[TieredConfig::default]", tiered_default, &[1024, 16384, 16385, 2 * 1024 * 1024 - 1, 2 * 1024 * 1024], 3, 4));
+        reg.add(tiered_with("tiered_allocate/tiered_deallocate[global allocator]", None, &[1, 1025, 16385, 2 * 1024 * 1024], 3, 4));
+
+        // bump allocators: a capacity small enough that requests end exactly at / just past the end; typed entry points
+        reg.add(bump_with("BumpAllocator[64B]/exact-fit", 64, false, 5, 5, bump_tiny_reqs(), false));
+        reg.add(bump_with("BumpArena+BumpScope[64B]/exact-fit", 64, true, 4, 4, bump_tiny_reqs(), false));
+        reg.add(bump_with("BumpAllocator[256B]/alloc<T>+alloc_slice<T>", 256, false, 4, 4, bump_typed_reqs(), true));
+        reg.add(bump_with("BumpArena+BumpScope[256B]/alloc<T>+alloc_slice<T>", 256, true, 4, 4, bump_typed_reqs(), true));
+
+        // five-level family: smallest legal alignment (the free-list link fills the whole block), level chosen by
+        // AdaptiveFiveLevelPool::new, pool and FiveLevelPoolHandle used in turn
+        reg.add(five("five_level::NoLockingPool[align4,64B]", FiveKind::NoLocking, five_align4, &[1, 4, 5, 16, 17], 4, 4));
+        reg.add(five("five_level::LockFreePool[align4,64B]", FiveKind::LockFree, five_align4, &[1, 4, 5, 16, 17], 4, 4));
+        match auto_level(five_tiny) {
+            Some(ConcurrencyLevel::ThreadLocal) => reg.add(five("five_level::ThreadLocalPool via AdaptiveFiveLevelPool[new,level by CPU count]", FiveKind::Auto, five_tiny, &[8, 16, 65], 4, 5)),
+            _ => reg.add(five("five_level::AdaptiveFiveLevelPool[new,level by CPU count]", FiveKind::Auto, five_tiny, &f8, 4, 5)),
+        }
+        reg.add(five("five_level::FiveLevelPoolHandle+AdaptiveFiveLevelPool[MultiThreadMutex]", FiveKind::Handle(ConcurrencyLevel::MultiThreadMutex), five_tiny, &f8, 4, 5));
+        reg.add(five("five_level::FiveLevelPoolHandle+AdaptiveFiveLevelPool[MultiThreadLockFree]", FiveKind::Handle(ConcurrencyLevel::MultiThreadLockFree), five_tiny, &f8, 4, 5));
+
+        // numa functions with the per-node pools set up (numa_dealloc then takes its pool branch); CacheOptimizedAllocator
+        let mut s = numa_with("numa_alloc_aligned/numa_dealloc[init_numa_pools]", true, 4, 4);
+        s.0.x.clear = true;
+        reg.add(s);
+        reg.add(cache_opt("CacheOptimizedAllocator[CacheLayoutConfig::new]", CacheLayoutConfig::new, 4, 4));
     });
 }
